@@ -44,6 +44,19 @@ def CT.pass : CT → Nat → Nat
   | .V, j => 3 - j
   | .H, j => (5 - j) % 4
 
+/-- `CrossingType::mirror` -/
+def CT.mirror : CT → CT
+  | .X => .Xm
+  | .Xm => .X
+  | c => c
+
+/-- sign contributed when a strand ENTERS a crossing of type `ct` through slot `j`
+(`Link::crossing_signs`: `(Xm,1) | (X,3) ⇒ +`, `(Xm,3) | (X,1) ⇒ −`, otherwise none = 0) -/
+def slotSign : CT → Nat → Int
+  | .X, 3 | .Xm, 1 => 1
+  | .X, 1 | .Xm, 3 => -1
+  | _, _ => 0
+
 def crossingNum (l : Link) : Nat := (l.filter (fun c => !c.ct.isResolved)).size
 
 /-- `Link::resolved_by`: bit `k` of the state resolves the `k`-th unresolved crossing. -/
@@ -128,10 +141,7 @@ def crossingSigns (l : Link) : Option (Array Int) := Id.run do
               steps := steps + 1
               let c := l[i]!
               passed := passed.push (c.e[j]!)
-              match c.ct, j with
-              | .X, 3 | .Xm, 1 => sg := sg.set! i 1
-              | .X, 1 | .Xm, 3 => sg := sg.set! i (-1)
-              | _, _ => pure ()
+              if slotSign c.ct j != 0 then sg := sg.set! i (slotSign c.ct j)
               let k := c.ct.pass j
               match partner l i k with
               | none => passed := passed.push (c.e[k]!); go := false
@@ -203,6 +213,9 @@ def Cube.gensAt (c : Cube) (s : Nat) : Array Gen :=
 
 def setBit (x i : Nat) (b : Bool) : Nat := if b then x ||| (1 <<< i) else x &&& ((2 ^ 64 - 1) ^^^ (1 <<< i))
 
+/-- sign of the cube edge that flips bit `k` of the state `s`: (−1)^{number of 1s of `s` before position `k`} -/
+def edgeSign (s k : Nat) : Int := if popcount (s % 2 ^ k) k % 2 == 0 then 1 else -1
+
 /-- `d` on a generator; `none` if two adjacent vertices do not differ by one merge/split -/
 def Cube.d (c : Cube) (p : Params) (g : Gen) : Option (Array Term) := Id.run do
   let mut out : Array Term := #[]
@@ -211,7 +224,7 @@ def Cube.d (c : Cube) (p : Params) (g : Gen) : Option (Array Term) := Id.run do
     if !g.s.testBit k then
       let s' := g.s ||| (1 <<< k)
       let cs' := c.circ[s']!
-      let sign : Int := if popcount (g.s % 2 ^ k) k % 2 == 0 then 1 else -1
+      let sign : Int := edgeSign g.s k
       -- circles that disappear / appear
       let gone := (Array.range cs.size).filter (fun i => !cs'.contains cs[i]!)
       let born := (Array.range cs'.size).filter (fun i => !cs.contains cs'[i]!)
@@ -491,5 +504,29 @@ def khHomology (l : Link) (signs : Array Int) (p : Params) (k : Coeff) (bigraded
         let g := hs[i]!
         if g.rank != 0 || g.tors.size != 0 then cells := cells.push (h0 + i, some q, g)
   return .ok ⟨cells⟩
+
+/-- `Link::mirror` -/
+def mirror (l : Link) : Link := l.map (fun c => ⟨c.ct.mirror, c.e⟩)
+
+/-- reversing the orientation of every component at once: `[a,b,c,d] ↦ [c,d,a,b]` -/
+def reverseAll (l : Link) : Link := l.map (fun c => ⟨c.ct, #[c.e[2]!, c.e[3]!, c.e[0]!, c.e[1]!]⟩)
+
+/-- the arcs of a resolved crossing as pairs of slots (`Crossing::arcs`) -/
+def CT.arcSlots : CT → List (Nat × Nat)
+  | .V => [(0, 3), (1, 2)]
+  | .H => [(0, 1), (2, 3)]
+  | _ => [(0, 2), (1, 3)]
+
+/-- the mirror rule of the property on a table: free part (i,j) ↦ (−i,−j), torsion (i,j) ↦ (1−i,−j) -/
+def mirrorRule (r : Result) : Result := Id.run do
+  let mut out : Array (Int × Option Int × Group) := #[]
+  let bump (out : Array (Int × Option Int × Group)) (i : Int) (j : Option Int) (f : Group → Group) :=
+    match out.findIdx? (fun c => c.1 == i && c.2.1 == j) with
+    | some k => out.modify k (fun c => (c.1, c.2.1, f c.2.2))
+    | none => out.push (i, j, f ⟨0, #[]⟩)
+  for (i, j, g) in r.cells do
+    if g.rank != 0 then out := bump out (-i) (j.map (fun x => -x)) (fun c => ⟨c.rank + g.rank, c.tors⟩)
+    if g.tors.size != 0 then out := bump out (1 - i) (j.map (fun x => -x)) (fun c => ⟨c.rank, c.tors ++ g.tors⟩)
+  return ⟨out⟩
 
 end Yuiv.KhRef
